@@ -178,6 +178,7 @@ int main(int argc, char** argv) {
     else if (a == "--out-dir") outdir = next();
     else if (a == "-v") verbose = true;
     else if (a == "--decoded-first") decoded_first = true;
+    else if (a == "--prop" || a == "--cls") next();
     else file = a;
   }
   if (cmd == "run") {
